@@ -163,6 +163,20 @@ def run(pid, tier, seed, replay=None):
     # oracle search on the implementation
     if hasattr(mod, 'oracle'):
         mod.oracle(ctx)
+        unproved = broken or res.corr_disagreements or any(not o[1] for o in res.extra_obligations)
+        if unproved and not res.oracle_failures and tier == 'quick' and not ctx.deep:
+            # a proof obligation, an inventory or the correspondence no longer checks and the quick search found no failing input:
+            # search again with the breadth of the thorough tier and fresh random choices before reporting no-failing-input-found
+            ctx.log('something no longer checks and the quick oracle found no failing input: searching with the thorough oracle')
+            import random as _random
+            n_extra = len(res.extra_obligations)
+            ctx.deep, ctx.rnd = True, _random.Random(seed + 1000)
+            for attr in [x for x in vars(ctx) if x.startswith('_c') or x == '_sets']:
+                delattr(ctx, attr)
+            try:
+                mod.oracle(ctx)
+            finally:
+                del res.extra_obligations[n_extra:]
     res.assumptions += getattr(mod, 'ASSUMPTIONS', [])
     return core.finish(res)
 
